@@ -26,7 +26,7 @@ def run(ctx):
         t = os.path.join(td, 'tlc-%s.ndjson' % nm)
         fc.run_filter(ctx, vh, t, cases=cp, repos=REPOS, prefix='foo', kinds='sub')
         traces.append(t)
-    nrand = 40 if quick else 3000
+    nrand = 40 if quick else 2000
     prefixes = PREFIXES_Q if quick else PREFIXES_T
     per = max(1, nrand // len(prefixes))
     i = 0
@@ -46,7 +46,7 @@ def run(ctx):
     ctx.cov['samples'] = [dict(tlc_case_ops=names[0]['ops'][:2], scope=names[0]['scope']),
                           dict(hostile=fc.sample_events(traces[0], 2, lambda e: '..' in e.get('r', '') and e['backend'])),
                           dict(listing=fc.sample_events(traces[-1], 2, lambda e: e['op'] == 'ListRepos' and e.get('start')))]
-    vlib.judge_traces(ctx, 'OciFilterTrace', 'OciFilterTrace.cfg', traces, shard_lines=1500, label='Sub vs OciFilter')
+    vlib.judge_traces(ctx, 'OciFilterTrace', 'OciFilterTrace.cfg', traces, shard_lines=1500 if quick else 6000, label='Sub vs OciFilter')
     need = ['sub:ListRepos', 'sub:MountBlob', 'sub:Write', 'sub:Commit', 'sub:GetBlob', 'sub:Referrers']
     missing = [k for k in need if not ctx.cov['per_op'].get(k)]
     if missing:
